@@ -25,7 +25,7 @@ import (
 )
 
 func main() {
-	mode := flag.String("mode", "plan", "plan|quote|import")
+	mode := flag.String("mode", "plan", "plan|quote|import|files")
 	tier := flag.String("tier", "quick", "quick|thorough")
 	outDir := flag.String("out", "", "output directory")
 	flag.Parse()
@@ -41,6 +41,8 @@ func main() {
 		runQuote(w, *tier)
 	case "import":
 		runImport(w, *tier, *outDir)
+	case "files":
+		runFiles(w, *tier, *outDir)
 	default:
 		fmt.Fprintln(os.Stderr, "unknown mode")
 		os.Exit(2)
